@@ -147,3 +147,16 @@ pub use crate::intern::Lookup;
 pub use crate::intern::SerGuard;
 #[doc(inline)]
 pub use crate::intern::WithIntern;
+
+#[cfg(isographlabs_isograph_verif_loom)]
+mod verif_sync;
+
+/// Verification hook: exposes the private arena and sharded set to external model-checking
+/// harnesses. Not part of the public API.
+#[cfg(isographlabs_isograph_verif)]
+pub mod verif {
+    pub use crate::atomic_arena::AtomicArena;
+    pub use crate::atomic_arena::Ref;
+    pub use crate::atomic_arena::Zero;
+    pub use crate::sharded_set::ShardedSet;
+}
